@@ -105,6 +105,13 @@ func c02Cases() []c02Case {
 		{"leafA-intB-rootA", func(a, b *gen.World) ([]byte, *gen.Key) { return mk(a.Leaf, b.PKI.Int, a.PKI.Root), a.Leaf.Key }, false},
 		{"leafB-intB-rootA", func(a, b *gen.World) ([]byte, *gen.Key) { return mk(b.Leaf, b.PKI.Int, a.PKI.Root), b.Leaf.Key }, false},
 		{"leafA-intA-rootB", func(a, b *gen.World) ([]byte, *gen.Key) { return mk(a.Leaf, a.PKI.Int, b.PKI.Root), a.Leaf.Key }, true},
+		{"leafA-intA-cross-certified-under-a-rogue-root", func(a, b *gen.World) ([]byte, *gen.Key) {
+			// the genuine intermediate's KEY certified once more, by a self-made "Intel SGX Root CA": leaf A verifies under
+			// this intermediate, the in-quote chain is self-consistent, but it ends in a root nobody trusts
+			rogue := gen.MakeCert(gen.CertSpec{CN: gen.CNRoot, KeyLabel: "c02/rogue-root", Serial: []byte{7, 7}, NotBefore: gen.Wide.NotBefore, NotAfter: gen.Wide.NotAfter, CA: true, CRLDP: []string{gen.RootCrlURL}}, nil)
+			cross := gen.MakeCert(gen.CertSpec{CN: a.PKI.Int.X.Subject.CommonName, KeyLabel: a.PKI.Spec.Seed + "/int", Serial: []byte{7, 8}, NotBefore: gen.Wide.NotBefore, NotAfter: gen.Wide.NotAfter, CA: true, CRLDP: []string{gen.RootCrlURL}}, rogue)
+			return mk(a.Leaf, cross, rogue), a.Leaf.Key
+		}, false},
 		{"tcb-signer-as-leaf", func(a, b *gen.World) ([]byte, *gen.Key) {
 			return mk(a.PKI.TcbSig, a.PKI.Int, a.PKI.Root), a.PKI.TcbSig.Key
 		}, false},
@@ -316,7 +323,7 @@ func TestC02(t *testing.T) {
 		var quotes []quote
 		for _, cs := range cases {
 			switch cs.name {
-			case "genuine", "all-from-B", "leafB-intA-rootA", "leafB-intB-rootA", "leafA-intB-rootA":
+			case "genuine", "all-from-B", "leafB-intA-rootA", "leafB-intB-rootA", "leafA-intB-rootA", "leafA-intA-cross-certified-under-a-rogue-root":
 				w := *a
 				w.Q = a.Q.Clone()
 				chain, qeKey := cs.chain(a, b)
@@ -401,7 +408,7 @@ func TestC02(t *testing.T) {
 	dir := t.TempDir()
 	gen.Prop(t, "root-of-trust-config", gen.N(1200, 60000), func(t *rapid.T) {
 		s := gen.NewStream(rapid.Uint64().Draw(t, "content"), "c02rot")
-		pkis := []*gen.PKI{gen.NewPKI(gen.PKISpec{Seed: "pki-A"}), gen.NewPKI(gen.PKISpec{Seed: "pki-B"}), gen.NewPKI(gen.PKISpec{Seed: "pki-C"})}
+		pkis := []*gen.PKI{gen.NewPKI(gen.PKISpec{Seed: "pki-A"}), gen.NewPKI(gen.PKISpec{Seed: "pki-B"}), gen.NewPKI(gen.PKISpec{Seed: "pki-C"}), gen.NewPKI(gen.PKISpec{Seed: "pki-Z"})} // Z is never listed
 		listed := map[int]bool{}
 		rot := &ccpb.RootOfTrust{CheckCrl: rapid.Bool().Draw(t, "crl"), GetCollateral: rapid.Bool().Draw(t, "coll")}
 		broken := ""
@@ -448,6 +455,7 @@ func TestC02(t *testing.T) {
 			}
 			return out
 		}
+		var filePaths, fileContents []string
 		for i := 0; i < nFiles; i++ {
 			switch rapid.IntRange(0, 9).Draw(t, "missing") {
 			case 0:
@@ -466,9 +474,7 @@ func TestC02(t *testing.T) {
 			base := fmt.Sprintf("bundle-%d-%d.pem", s.Intn(1<<30), i)
 			odd := rapid.SampledFrom([]string{"", "", "", "$VERIF_NO_SUCH_VARIABLE_", "${VERIF_NO_SUCH_VARIABLE_}", "$HOME-", "~", "%TEMP%", "a b ", "*", "$$"}).Draw(t, fmt.Sprintf("oddName%d", i))
 			p := filepath.Join(dir, odd+base)
-			if err := os.WriteFile(p, []byte(bundle(fmt.Sprintf("file%d", i))), 0o644); err != nil {
-				gen.HarnessError(t, "cannot write bundle: %v", err)
-			}
+			filePaths, fileContents = append(filePaths, p), append(fileContents, bundle(fmt.Sprintf("file%d", i)))
 			defer os.Remove(p)
 			if exp := os.ExpandEnv(p); exp != p && filepath.Dir(exp) == dir {
 				if err := os.WriteFile(exp, gen.NewPKI(gen.PKISpec{Seed: "pki-decoy"}).Root.PEM, 0o644); err == nil {
@@ -480,6 +486,28 @@ func TestC02(t *testing.T) {
 		}
 		for i := 0; i < nInline; i++ {
 			rot.Cabundles = append(rot.Cabundles, bundle(fmt.Sprintf("inline%d", i)))
+		}
+		// every bundle is a list of its own: a certificate that NO bundle lists in one piece - the first half of its PEM
+		// block at the end of one bundle, the second half at the start of the next - is listed nowhere
+		if all := len(fileContents) + len(rot.Cabundles); broken == "" && all >= 2 && rapid.IntRange(0, 2).Draw(t, "splitAnUnlistedCertificate") == 0 {
+			k := rapid.IntRange(0, all-2).Draw(t, "splitAfterBundle")
+			lines := strings.SplitAfter(string(pkis[3].Root.PEM), "\n")
+			mid := 2 + s.Intn(len(lines)-4)
+			head, tail := strings.Join(lines[:mid], ""), strings.Join(lines[mid:], "")
+			at := func(i int) *string {
+				if i < len(fileContents) {
+					return &fileContents[i]
+				}
+				return &rot.Cabundles[i-len(fileContents)]
+			}
+			*at(k) = *at(k) + head
+			*at(k + 1) = tail + *at(k + 1)
+			gen.Class("rot:unlisted-certificate-split-across-two-bundles")
+		}
+		for i, p := range filePaths {
+			if err := os.WriteFile(p, []byte(fileContents[i]), 0o644); err != nil {
+				gen.HarnessError(t, "cannot write bundle: %v", err)
+			}
 		}
 		gen.Eval()
 		var o *verify.Options
